@@ -141,3 +141,40 @@ func VerifC04ProofExpiries(c *Cache, zone, owner string) (soa, nsec time.Time) {
 	}
 	return soa, nsec
 }
+
+// VerifC04HoldPrefetch swaps the worker pool for a worker-less queue of the
+// same kind, so that the refreshes real hits claim stay queued until the
+// driver completes them (nothing else changes).
+func VerifC04HoldPrefetch(c *Cache) bool {
+	if c.prefetchQueue == nil {
+		return false
+	}
+	c.prefetchQueue.Stop()
+	c.prefetchQueue = NewPrefetchQueue(0, 4096, c.metrics)
+	return true
+}
+
+// VerifC04DrainPrefetch takes the queued refresh requests, in order.
+func VerifC04DrainPrefetch(c *Cache) []PrefetchRequest {
+	var out []PrefetchRequest
+	if c.prefetchQueue == nil {
+		return nil
+	}
+	for {
+		select {
+		case r := <-c.prefetchQueue.items:
+			out = append(out, r)
+		default:
+			return out
+		}
+	}
+}
+
+// VerifC04RunPrefetch runs the unexported processPrefetch for one queued request.
+func VerifC04RunPrefetch(c *Cache, r PrefetchRequest) {
+	pq := &PrefetchQueue{ctx: context.Background(), metrics: c.metrics}
+	pq.processPrefetch(r)
+}
+
+// VerifC04PrefetchPct reads the effective prefetch threshold.
+func VerifC04PrefetchPct(c *Cache) int { return c.config.Prefetch }
